@@ -139,6 +139,31 @@ def rule_b(ctx: Ctx) -> None:
                 ctx.ob(rule, f'{q.split(".")[-2]}.{q.split(".")[-1]}: `except {text(h.type) if h.type else ""}` cannot swallow XMLResourceForbidden',
                        fn.loc(h), ok, '' if ok else f'{sorted(names & forb_chain)} is a superclass of XMLResourceForbidden and the handler does not re-raise',
                        key=f'{q}|handler|{sorted(names)}')
+    # role "included schema": the refusal of an included / redefined / overridden document reaches the caller of XMLSchema(…) - the handlers
+    # around include_schema() in the loader treat a *missing* location leniently (OSError), they must not treat a *forbidden* one that way
+    # (imports are lenient by specification and are not part of this property)
+    ld = ctx.idx.func('xmlschema.loaders.SchemaLoader.load_declared_schemas')
+    ctx.analysed(ld.qualname)
+    forb_ld = ctx.idx.exception_class_chain('XMLResourceForbidden', ld.module)
+    m = 0
+    par = None
+    for c in calls(ld.node):
+        if text(c.func) != 'self.include_schema':
+            continue
+        from ..astutil import enclosing_map, enclosing_try_handlers
+        par = par or enclosing_map(ld.node)
+        for t, hs in enclosing_try_handlers(c, par):
+            for h in hs:
+                m += 1
+                names = {text(e).split('.')[-1] for e in (h.type.elts if isinstance(h.type, ast.Tuple) else [h.type])} if h.type is not None else {'BaseException'}
+                catches = bool(names & forb_ld)
+                reraises = any(isinstance(x, ast.Raise) and x.exc is None for s_ in h.body for x in ast.walk(s_))
+                ok = not catches or reraises
+                ctx.ob(rule, f'load_declared_schemas: `except {text(h.type) if h.type else ""}` around include_schema(…) cannot swallow XMLResourceForbidden', ld.loc(h), ok,
+                       '' if ok else f'{sorted(names & forb_ld)} covers XMLResourceForbidden and the handler only warns: an included schema that declares an entity is skipped, '
+                       'XMLSchema(…, defuse=\'always\') returns a schema without its declarations and instances they would reject become valid',
+                       key=f'{ld.qualname}|include-handler|{sorted(names)}')
+    ctx.floor(rule, 'handlers around include_schema in the loader', m, 2)
     ctx.floor(rule, 'handlers between the scanner loop and the caller', n, 4)
     # the scan loop covers the prolog: it stops at the first START_ELEMENT, not earlier
     g = cfg_of(ctx, f)
